@@ -19,6 +19,8 @@ from lib.proggen import ProgGen
 from lib.props.c01 import adversarial, mutate, vm_stream
 
 STRUCT = [
+    # a computed-value literal executed more than once: each execution yields a new value (what its text assigned stays with that value)
+    "i = 0; r = []; while i < 3 { i = i + 1; &k = n = (n ?? 0) + 1; r.push(k) }; r", "func mk() { &k = n = (n ?? 0) + 2; k }; [mk(), mk()]", "&k = n = (n ?? 0) + 1; [k, k, &k.n]",
     # a value-if chain as a NON-last element of a list / argument list: the element after it is not another case of the chain
     "[1 ? 10, 5]", "[0 ? 10, 5]", "func g2(a, b) { a + b }; g2(1 ? 10, 5)", "[1 ? 10, 0 ? 3, 5]", "[0 ? 10, 0 ? 3, 5]", "[2, 0 ? 1, 1 ? 7, 9]", "x = [0 ? 1, 2, 3]; x",
     # loops whose condition starts with a literal / keyword / parenthesis, with `continue` as the first or only statement of the body
